@@ -92,3 +92,21 @@ Theorem C03_listing_active : forall w path names r1 r2 rest x1 x2 x3 line,
       [DNewObj; DListen; DAcceptOk; DTcpShutdown; DClose; DAccClose].
 Proof. exact list_active_complete. Qed.
 Print Assumptions C03_listing_active.
+
+From LibFtp Require Import Bytes_Global.
+(* ------------------------------------------------------------------ every call, every state, every server *)
+(* [ios tr]: the callback / sink / source / data-socket events among tr. In binary type, what a call hands to the caller's
+   sink ([sink_bytes]) is exactly what it read from the data connection ([net_in_bytes]) - the same bytes in the same order -
+   whether the transfer completes, is cancelled, is cut by the server or fails: nothing is added, dropped, repeated or
+   reordered between the socket and the sink (calls: everything but set_transfer_type and the uploads; a download's sink
+   does not fail) *)
+Theorem C03_sink_gets_exactly_what_was_read : forall a w, receives a -> c_type (w_cfg w) = TBinary ->
+  exists tr, w_trace (snd (step w a)) = w_trace w ++ tr /\ sink_bytes (ios tr) = net_in_bytes (ios tr).
+Proof. exact step_sink_gets_what_was_read. Qed.
+Print Assumptions C03_sink_gets_exactly_what_was_read.
+
+Example C03_bytes_example :
+  let w0 := init_world (mkConfig Passive true TBinary false false) bytes_script in
+  let tr := w_trace (snd (steps w0 [AConnect [104%N] 21%N None; ADownload [102%N] None None])) in
+  sink_bytes (ios tr) = [1;2;3;4;5;6]%N /\ net_in_bytes (ios tr) = [1;2;3;4;5;6]%N.
+Proof. exact bytes_example. Qed.
